@@ -20,6 +20,30 @@ The generator also computes
     toolchain on every run (validation of this file, not part of the verdict).
 """
 
+# observable uses of std packages whose initialisation matters (math/bits: the deBruijn tables are package-level
+# variables filled in by math/bits.init; unicode/utf8: the `first` / `acceptRanges` tables): (import path, Go expression, value)
+STD = [("math/bits", "bits.TrailingZeros32(8)", 3), ("math/bits", "bits.TrailingZeros64(1<<40)", 40),
+       ("math/bits", "bits.TrailingZeros16(32)", 5), ("math/bits", "bits.TrailingZeros(64)", 6),
+       ("math/bits", "bits.Len(255)", 8), ("math/bits", "bits.OnesCount(0xff)", 8),
+       ("unicode/utf8", "utf8.RuneLen('\u00e9')", 2), ("unicode/utf8", "utf8.RuneCountInString(\"h\u00e9llo\")", 5)]
+
+B_, U_ = "math/bits", "unicode/utf8"
+# Fixed import structures (packages 1 … n-1; 0 is the tracer, the last one is main; "wf" = work-free).
+LAYOUTS = {
+    # main -> w1 -> w2 -> w3 -> base: base, math/bits and unicode/utf8 are reachable ONLY through three consecutive work-free packages
+    "chain3": [{"deps": [], "std": [B_, U_]}, {"deps": [1], "wf": 1}, {"deps": [2], "wf": 1}, {"deps": [3], "wf": 1}, {"deps": [4]}],
+    # one work-free level above b1 (math/bits only through it), two above b2 (unicode/utf8 only through them)
+    "chain12": [{"deps": [], "std": [B_]}, {"deps": [1], "wf": 1}, {"deps": [], "std": [U_]}, {"deps": [3], "wf": 1}, {"deps": [4], "wf": 1},
+                {"deps": [2, 5]}],
+    # base only through a diamond made of work-free packages (two consecutive levels)
+    "wfdiamond": [{"deps": []}, {"deps": [1], "wf": 1}, {"deps": [1], "wf": 1}, {"deps": [2, 3], "wf": 1}, {"deps": []}, {"deps": [4, 5]}],
+    # work-free packages inside a diamond of ordinary ones; a work-free leaf without any import below another work-free package
+    "mixed": [{"deps": [], "std": [B_]}, {"deps": [1], "wf": 1}, {"deps": [2]}, {"deps": [], "wf": 1}, {"deps": [4], "wf": 1, "std": [U_]},
+              {"deps": [5, 2]}, {"deps": [3, 6], "std": [B_, U_]}],
+    # std packages imported by main directly AND below one / two generated packages
+    "stddirect": [{"deps": [], "std": [B_, U_]}, {"deps": [1], "wf": 1, "std": [B_]}, {"deps": [2], "std": [U_]}, {"deps": [3, 1], "std": [B_, U_]}],
+}
+
 NAMES = ["zeta", "alpha", "mid", "beta", "omega", "kilo", "delta", "echo", "yank", "bravo", "sierra", "able"]
 FILES = ["a_first.go", "k_mid.go", "z_last.go", "b2.go", "y_9.go"]
 
@@ -32,7 +56,7 @@ class Ent:
         self.idx = idx
         self.pkg = pkg
         self.const = 0
-        self.refs = []          # list of ('var'|'func', Ent) | ('xvar', Ent) | ('atomic',)
+        self.refs = []          # ('var'|'func', Ent) | ('xvar', Ent) | ('xw', Pkg) | ('std', index into STD) | ('atomic', Ent)
         self.traced = True      # variables may have a constant initialiser without a trace line
         self.file = 0
 
@@ -64,6 +88,9 @@ class Pkg:
         self.dir = ""              # directory relative to the module root
         self.deps = []             # ids of imported tree packages
         self.atomic = False        # imports sync/atomic
+        self.workfree = False      # no package-level variable with an initialiser, no init function: only consts, types, funcs
+        self.std = []              # std packages (of STD) this package uses
+        self.w = None              # work-free package: its exported `func W() int`
         self.files = []            # file names
         self.vars, self.funcs, self.inits = [], [], []
         self.decl_order = {}       # file index -> list of Ent/Init in source order
@@ -74,8 +101,11 @@ class Tree:
     pass
 
 
-def gen_tree(rng, mod, npk=None, atomic=None):
-    n = npk or rng.randint(2, 8)
+def gen_tree(rng, mod, npk=None, atomic=None, layout=None, std=(), p_wf=0.3):
+    """layout: optional list (packages 1 … n-1) of {"deps": [ids without the tracer], "wf": bool, "std": [paths]};
+    otherwise random imports, every library package work-free with probability p_wf, and each path of `std` used
+    by a package with probability 0.35."""
+    n = (len(layout) + 1) if layout else (npk or rng.randint(2, 8))
     t = Tree()
     t.mod = mod
     names = rng.sample(NAMES, n - 2) if n > 2 else []
@@ -87,28 +117,67 @@ def gen_tree(rng, mod, npk=None, atomic=None):
     pk[0].dir, pk[0].path = "tr", mod + "/tr"
     pk[-1].dir, pk[-1].path = "", mod
     for p in pk[1:]:
+        if layout:
+            L = layout[p.id - 1]
+            p.workfree = bool(L.get("wf")) and p.id != n - 1
+            p.deps = ([] if p.workfree else [0]) + list(L.get("deps", []))
+            p.std = list(L.get("std", []))
+            continue
         cand = list(range(1, p.id))
-        p.deps = [0] + [q for q in cand if rng.random() < 0.55]
+        p.workfree = p.id != n - 1 and rng.random() < p_wf
+        p.deps = ([] if p.workfree else [0]) + [q for q in cand if rng.random() < 0.55]
         if p.id == n - 1 and n > 2 and len(p.deps) == 1:
             p.deps.append(rng.choice(cand))
+        p.std = [x for x in std if rng.random() < 0.35]
     if atomic is None:
         atomic = rng.random() < 0.5
     if atomic:
-        pk[rng.randint(1, n - 1)].atomic = True
+        rng.choice([p for p in pk[1:] if not p.workfree]).atomic = True
     # tracer
     tr = pk[0]
     tr.files = ["tr.go"]
     # entities
+    def dep_ref(q):
+        return ("xw", pk[q]) if pk[q].workfree else ("xvar", rng.choice(pk[q].vars))
+
+    def std_refs(p, state, force=False):
+        """references to the std packages of p; every path of p.std is used at least once in the package"""
+        out = []
+        for path in p.std:
+            if path not in state or force or rng.random() < 0.3:
+                state.add(path)
+                out.append(("std", rng.choice([i for i, x in enumerate(STD) if x[0] == path])))
+        return out
+
     for p in pk[1:]:
         nfile = rng.randint(1, 3)
         p.files = sorted(rng.sample(FILES, nfile))
-        nv, nf = rng.randint(1, 4), rng.randint(0, 2)
+        if p.workfree:
+            w = Ent("wfunc", 0, p)
+            w.const = rng.randint(1, 9) * (10 ** rng.randint(0, 2))
+            w.file = rng.randrange(nfile)
+            for q in p.deps:
+                if rng.random() < 0.8:
+                    w.refs.append(dep_ref(q))          # otherwise: blank import
+            w.refs += std_refs(p, set(), force=True)
+            rng.shuffle(w.refs)
+            p.w = w
+            fill = ["const K%d = %d\n" % (p.id, w.const), "type Box%d struct{ N int }\n\nfunc (b Box%d) Get() int { return b.N + K%d }\n" % (p.id, p.id, p.id),
+                    "func Twice%d(x int) int { return 2 * x }\n" % p.id]
+            for f in range(nfile):
+                p.decl_order[f] = [w] if w.file == f else []
+            for x in fill:
+                lst = p.decl_order[rng.randrange(nfile)]
+                lst.insert(rng.randint(0, len(lst)), x)
+            ents = []
+        nv, nf = (0, 0) if p.workfree else (rng.randint(1, 4), rng.randint(0, 2))
         p.vars = [Ent("var", k, p) for k in range(nv)]
         p.funcs = [Ent("func", k, p) for k in range(nf)]
         ents = p.vars + p.funcs
         rank = ents[:]
         rng.shuffle(rank)               # an entity may reference entities earlier in `rank` only (acyclic)
         used_atomic = False
+        std_state = set()
         for r, e in enumerate(rank):
             e.const = rng.randint(1, 9) * (10 ** rng.randint(0, 2))
             e.file = rng.randrange(nfile)
@@ -120,7 +189,8 @@ def gen_tree(rng, mod, npk=None, atomic=None):
                     e.refs.append((o.kind, o))
             for q in p.deps[1:]:
                 if rng.random() < 0.5:
-                    e.refs.append(("xvar", rng.choice(pk[q].vars)))
+                    e.refs.append(dep_ref(q))
+            e.refs += std_refs(p, std_state)
             if p.atomic and not used_atomic and e.kind == "var":
                 cnt = Ent("var", 100 + p.id, p)      # `var cnt<N> int32`: declared, no initialiser; &cnt is a dependency
                 cnt.traced, cnt.is_cnt, cnt.file = False, True, e.file
@@ -130,8 +200,10 @@ def gen_tree(rng, mod, npk=None, atomic=None):
             rng.shuffle(e.refs)
         if p.atomic and not used_atomic:
             p.atomic = False
+        if not p.workfree and any(x not in std_state for x in p.std):
+            p.std = [x for x in p.std if x in std_state]      # every variable was a constant one: nothing uses it
         for f in range(nfile):
-            for k in range(rng.choice([0, 1, 1, 2, 3])):
+            for k in range(0 if p.workfree else rng.choice([0, 1, 1, 2, 3])):
                 it = Init(p, f, k)
                 it.const = rng.randint(1, 9)
                 for o in ents:
@@ -139,10 +211,12 @@ def gen_tree(rng, mod, npk=None, atomic=None):
                         it.refs.append((o.kind, o))
                 for q in p.deps[1:]:
                     if rng.random() < 0.3:
-                        it.refs.append(("xvar", rng.choice(pk[q].vars)))
+                        it.refs.append(dep_ref(q))
                 p.inits.append(it)
         # source order inside each file: random interleaving of that file's declarations
         for f in range(nfile):
+            if p.workfree:
+                break
             decls = [e for e in ents if e.file == f] + [i for i in p.inits if i.file == f]
             if p.atomic and p.cnt.file == f:
                 decls.append(p.cnt)
@@ -158,12 +232,15 @@ def gen_tree(rng, mod, npk=None, atomic=None):
         for f in range(nfile):
             need, atomic_here = [], False
             for d in p.decl_order[f]:
-                if isinstance(d, Init) or d.traced:
+                if isinstance(d, str):
+                    continue
+                if isinstance(d, Init) or (d.traced and d.kind != "wfunc"):
                     if pk[0].path not in need:
                         need.append(pk[0].path)
                 for r in d.refs:
-                    if r[0] == "xvar" and r[1].pkg.path not in need:
-                        need.append(r[1].pkg.path)
+                    path = {"xvar": lambda: r[1].pkg.path, "xw": lambda: r[1].path, "std": lambda: STD[r[1]][0]}.get(r[0], lambda: None)()
+                    if path and path not in need:
+                        need.append(path)
                     if r[0] == "atomic":
                         atomic_here = True
             if p.id == n - 1 and f == 0 and pk[0].path not in need:
@@ -190,6 +267,7 @@ def gen_tree(rng, mod, npk=None, atomic=None):
                 p.file_imports[f] = []
         p.live_files = keep
     t.atomic = any(p.atomic for p in pk)
+    t.stdpkgs = sorted(set(path for p in pk[1:] for f in p.file_imports for path, _ in p.file_imports[f]) - set(q.path for q in pk))
     t.files = render(t)
     t.imports_order = {p.id: imports_order(t, p) for p in pk}
     t.reachable = reach(t)
@@ -206,6 +284,10 @@ def expr(p, const, refs):
             terms.append(r[1].goname + "()")
         elif r[0] == "xvar":
             terms.append(r[1].pkg.name + "." + r[1].goname)
+        elif r[0] == "xw":
+            terms.append(r[1].name + ".W()")
+        elif r[0] == "std":
+            terms.append(STD[r[1]][1])
         else:
             terms.append("int(atomic.AddInt32(&%s, 1))" % r[1].goname)
     return " + ".join(terms)
@@ -227,7 +309,12 @@ def render(t):
                     out.append('\t%s"%s"' % ("_ " if blank else "", path))
                 out.append(")\n")
             for d in p.decl_order[f]:
-                if isinstance(d, Init):
+                if isinstance(d, str):
+                    out.append(d)
+                elif d.kind == "wfunc" if isinstance(d, Ent) else False:
+                    out.append("// W: this package has no package-level variable initialiser and no init function.\n"
+                               "func W() int { return %s }\n" % expr(p, "K%d" % p.id, d.refs))
+                elif isinstance(d, Init):
                     out.append('func init() { tr.T("%s", %s) }\n' % (d.label, expr(p, d.const, d.refs)))
                 elif getattr(d, "is_cnt", False):
                     out.append("var %s int32\n" % d.goname)
@@ -277,7 +364,14 @@ def value(e, memo):
         return e.const
     v = e.const
     for r in e.refs:
-        v += 1 if r[0] == "atomic" else value(r[1], memo)
+        if r[0] == "atomic":
+            v += 1
+        elif r[0] == "std":
+            v += STD[r[1]][2]
+        elif r[0] == "xw":
+            v += value(r[1].w, memo)
+        else:
+            v += value(r[1], memo)
     memo[e] = v
     return v
 
@@ -336,6 +430,6 @@ def pkg_of_label(t, label):
 
 
 def describe(t):
-    return {"module": t.mod, "packages": [{"id": p.id, "path": p.path, "imports_in_go_types_order": t.imports_order[p.id],
+    return {"module": t.mod, "packages": [{"id": p.id, "path": p.path, "work_free": p.workfree, "imports_in_go_types_order": t.imports_order[p.id],
                                            "files": [p.files[f] for f in getattr(p, "live_files", [0])] if p.id else ["tr.go"]} for p in t.pkgs],
             "files": t.files}
